@@ -49,6 +49,7 @@ impl Prop for C16 {
         (
             prop_oneof![
                 16 => proptest::collection::vec(select(UNITS), 0..=40).prop_map(|v| v.concat()),
+                1 => gen::with_giant(proptest::collection::vec(select(UNITS), 0..=20).prop_map(|v| v.concat()).boxed(), 2),
                 1 => proptest::collection::vec(select(UNITS), 41..=300).prop_map(|v| v.concat()),
                 1 => gen::text(12),
             ],
